@@ -585,6 +585,13 @@ def static_obligations(reg, tier):
                     isinstance(s_, (ast.Assign, ast.AugAssign, ast.AnnAssign)) and any(isinstance(t_, ast.Name) and t_.id == v.id for t_ in (s_.targets if isinstance(s_, ast.Assign) else [s_.target]))
                     for s_ in ast.walk(fn_node)):
                 return f'{kind} = parameter'
+            if kind == 'item' and isinstance(v, ast.BinOp) and isinstance(v.op, ast.Add) and isinstance(v.left, ast.Name) and fn_node is not None:
+                # an explaining temporary bound exactly once in the function: look through it
+                binds = [s_.value for s_ in ast.walk(fn_node) if isinstance(s_, ast.Assign) and any(isinstance(t_, ast.Name) and t_.id == v.left.id for t_ in s_.targets)]
+                others = [s_ for s_ in ast.walk(fn_node) if isinstance(s_, (ast.AugAssign, ast.AnnAssign, ast.For, ast.NamedExpr)) and any(
+                    isinstance(t_, ast.Name) and t_.id == v.left.id and isinstance(t_.ctx, ast.Store) for t_ in ast.walk(s_.target))]
+                if len(binds) == 1 and not others:
+                    v = ast.BinOp(left=binds[0], op=v.op, right=v.right)
             if kind == 'item' and isinstance(v, ast.BinOp) and isinstance(v.op, ast.Add) and isinstance(v.right, ast.Constant) and v.right.value == 1 and \
                     isinstance(v.left, ast.Call) and isinstance(v.left.func, ast.Attribute) and v.left.func.attr == 'get' and \
                     ast.unparse(v.left.func.value) == ast.unparse(target.value) and len(v.left.args) == 2 and ast.unparse(v.left.args[0]) == ast.unparse(target.slice) and \
@@ -670,6 +677,45 @@ def static_obligations(reg, tier):
                         body.index('self.call_site_analyze_counter = {}') < min(i for i, b in enumerate(body) if 'init_frame_stack' in b):
                     ok_run = True
     res('the-global-phase-starts-every-entry-point-with-a-fresh-call-site-table', ok_run, 'run(): no `self.call_site_analyze_counter = {}` before init_frame_stack in the entry-point loop')
+    # phase-II frame driver: a frame leaves the stack only after its method was recorded as analysed. The caller that was interrupted for it pushes a callee again
+    # whenever it is `not in self.analyzed_method_list` (and compute_target_method_states interrupts for every callee that is neither analysed nor on the stack), so a
+    # frame popped without the record is pushed and popped forever: the per-statement counter only moves on completed visits. Structural (dominance in the block
+    # structure of the loop body), not symbolic.
+    am = source.load(PS).function('P2PrelimSemanticAnalysis.analyze_method')
+    loops_ = [n for n in ast.walk(am) if isinstance(n, ast.While) and 'frame_stack' in ast.unparse(n.test)]
+    pops, bad_pops, hazards = [], [], []
+    RECORD = 'self.analyzed_method_list.add(frame.method_id)'
+    if loops_:
+        loop_ = loops_[0]
+        par = {}
+        for n in ast.walk(loop_):
+            for fld in ('body', 'orelse', 'finalbody'):
+                blk = getattr(n, fld, None)
+                if isinstance(blk, list):
+                    for i_, ch in enumerate(blk):
+                        if isinstance(ch, ast.stmt):
+                            par[id(ch)] = (n, blk, i_)
+        for n in ast.walk(loop_):
+            if isinstance(n, ast.Expr) and ast.unparse(n) == 'frame_stack.pop()':
+                pops.append(n)
+                cur, found = n, False
+                while id(cur) in par and not found:
+                    owner, blk, i_ = par[id(cur)]
+                    found = any(isinstance(b_, ast.Expr) and ast.unparse(b_) == RECORD for b_ in blk[:i_])
+                    if owner is loop_:
+                        break
+                    cur = owner
+                if not found:
+                    bad_pops.append(n.lineno)
+            if isinstance(n, ast.Call) and isinstance(n.func, ast.Attribute) and ast.unparse(n.func.value) == 'self.analyzed_method_list' and \
+                    n.func.attr in ('remove', 'discard', 'clear', 'pop', 'difference_update', 'intersection_update'):
+                hazards.append(ast.unparse(n))
+            if isinstance(n, (ast.Assign, ast.AugAssign, ast.AnnAssign)):
+                for t_ in (n.targets if isinstance(n, ast.Assign) else [n.target]):
+                    if (isinstance(t_, ast.Name) and t_.id == 'frame' and ast.unparse(n) != 'frame = frame_stack.peek()') or ast.unparse(t_) in ('self.analyzed_method_list', 'frame.method_id'):
+                        hazards.append(ast.unparse(n)[:60])
+    res('phase-II-frame-driver:a-frame-is-popped-only-after-its-method-is-recorded-in-analyzed_method_list', bool(pops) and not bad_pops and not hazards,
+        f'analyze_method: frame_stack.pop() at line(s) {bad_pops} not preceded by `{RECORD}` in its block / an enclosing block of the same iteration; hazards {hazards}; pops found {len(pops)}')
     return out
 
 
